@@ -221,6 +221,9 @@ impl Exec for RingN {
     fn probe(&self) -> Option<StoreProbe> {
         Some(self.stack.probe())
     }
+    fn record_len(&self, key: &[u8]) -> Option<u64> {
+        self.stack.record_len(key)
+    }
     fn take_panics(&mut self) -> Vec<String> {
         let mut p = std::mem::take(&mut self.panics);
         if self.livelock {
